@@ -447,7 +447,7 @@ class ScalarProductFlow(FlowInterface.FlowInterface):
         for bin in range(len(bins) - 1):
             flow_bin.append(
                 self.__calculate_flow_event_average(
-                    particle_data,
+                    particles_bin[bin],
                     self.__calculate_particle_flow(
                         particles_bin[bin], resolution, Q_vector, self_corr
                     ),
